@@ -15,6 +15,9 @@ import (
 type RawHTTPResponder struct {
 	writer   io.Writer
 	response *http.Response
+	// Set once writing a response failed. The status line goes out before anything can fail, so the
+	// connection then carries a partial message (or is broken) and nothing more may be written to it.
+	writeErr error
 }
 
 func NewRawHTTPResponder(writer io.Writer) *RawHTTPResponder {
@@ -73,7 +76,19 @@ func (c *RawHTTPResponder) GetHeaders() http.Header {
 	return c.response.Header
 }
 
+// Reports whether a response was started on the connection and could not be completed (e.g. the body
+// ended before the announced Content-Length, or before the last chunk). The peer cannot find the end
+// of that message anymore: the only correct thing left to do with the connection is to close it.
+func (c *RawHTTPResponder) Failed() bool {
+	return c.writeErr != nil
+}
+
 func (c *RawHTTPResponder) writeResponse() error {
+	if c.writeErr != nil {
+		// Never append another message (e.g. an error page) to a partially written one
+		return c.writeErr
+	}
+
 	// If Content-Length is unknown, we must either use chunked encoding or close the connection.
 	if c.response.ContentLength < 0 {
 		status := c.response.StatusCode
@@ -87,6 +102,7 @@ func (c *RawHTTPResponder) writeResponse() error {
 	}
 
 	if err := c.response.Write(c.writer); err != nil {
+		c.writeErr = err
 		return err
 	}
 	if buf, ok := c.writer.(*bufio.Writer); ok {
